@@ -823,4 +823,88 @@ theorem pull_after_commit (classes : List ClassSpec) (fuel cls : Nat) (hist : Li
 
 example : ClassSpec.pathsDistinct demoClasses[0].links = true := by decide
 
+/-- every write of a plain-only commit is the write of one of its links -/
+theorem writesOf_origin (hist : List Nat) (L : List ((Nat × LinkKind) × Val)) (ws : List (List Step × Val))
+    (hw : writesOf hist L = some ws) (p : List Step) (v : Val) (hm : (p, v) ∈ ws) :
+    ∃ a path acts names, ((a, LinkKind.plain path acts names), v) ∈ L ∧ resolve hist path = some p := by
+  induction L generalizing ws with
+  | nil => simp only [writesOf, Option.some.injEq] at hw; subst hw; simp at hm
+  | cons b L ih =>
+    obtain ⟨⟨bn, bk⟩, bv⟩ := b
+    cases bk with
+    | hist n =>
+      simp only [writesOf] at hw
+      obtain ⟨a, path, acts, names, h1, h2⟩ := ih ws hw hm
+      exact ⟨a, path, acts, names, by simp [h1], h2⟩
+    | skip =>
+      simp only [writesOf] at hw
+      obtain ⟨a, path, acts, names, h1, h2⟩ := ih ws hw hm
+      exact ⟨a, path, acts, names, by simp [h1], h2⟩
+    | objs a1 a2 a3 a4 a5 a6 a7 =>
+      simp only [writesOf] at hw
+      obtain ⟨a, path, acts, names, h1, h2⟩ := ih ws hw hm
+      exact ⟨a, path, acts, names, by simp [h1], h2⟩
+    | plain q qa qn =>
+      simp only [writesOf] at hw
+      cases hq : resolve hist q with
+      | none => simp [hq] at hw
+      | some rq =>
+        cases hws : writesOf hist L with
+        | none => simp [hq, hws] at hw
+        | some ws' =>
+          simp only [hq, hws, Option.some.injEq] at hw
+          subst hw
+          simp only [List.mem_cons, Prod.mk.injEq] at hm
+          rcases hm with ⟨h1, h2⟩ | h
+          · subst h1; subst h2
+            exact ⟨bn, q, qa, qn, by simp, hq⟩
+          · obtain ⟨a, path, acts, names, h1, h2⟩ := ih ws' hws h
+            exact ⟨a, path, acts, names, by simp [h1], h2⟩
+
+/-- **frame of a commit** (plain classes): a place that diverges from the retriever of every link of the class holds
+after the commit what it held before -/
+theorem commit_frame (classes : List ClassSpec) (fuel cls : Nat) (hist : List Nat) (s s' : Sections) (vals : List Val)
+    (c : ClassSpec) (hc : classes[cls]? = some c) (hp : ClassSpec.plainOnly c = true)
+    (h : commitObj classes (fuel + 1) cls hist (.strct vals) s = .ok s')
+    (q : List Step)
+    (hq : ∀ a path acts names p, (a, LinkKind.plain path acts names) ∈ c.links → resolve hist path = some p →
+      Aoe.Props.C05.Diverge p q) :
+    getAt q s'.root = getAt q s.root := by
+  simp only [commitObj, hc] at h
+  have hplain : ∀ lv ∈ (c.links.zip vals).reverse, LinkKind.isPlainNoActs lv.1.2 = true := by
+    intro lv hlv
+    have : lv.1 ∈ c.links := (List.of_mem_zip (by simpa using hlv)).1
+    have := List.all_eq_true.mp hp lv.1 this
+    simpa using this
+  obtain ⟨ws, hw, hwa⟩ := commit_plain_writes _ hist _ hplain s s' h
+  refine writeAll_frame ws q s.root s'.root ?_ hwa
+  intro w hwm
+  obtain ⟨p, v⟩ := w
+  obtain ⟨a, path, acts, names, h1, h2⟩ := writesOf_origin hist _ ws hw p v hwm
+  have : (a, LinkKind.plain path acts names) ∈ c.links := (List.of_mem_zip (by simpa using h1)).1
+  exact hq a path acts names p this h2
+
+/-- **an edit lands exactly where it belongs** (plain classes with pairwise different retrievers): two commits of the
+same object that differ in the values of some links, started from the same sections, produce sections in which
+(1) every link pulls its own object's value, so a link whose value is the same in both pulls the same in both, and
+(2) every place outside the links' retrievers is what it was before, in both -/
+theorem edit_lands_only_there (classes : List ClassSpec) (fuel cls : Nat) (hist : List Nat) (s s1 s2 : Sections)
+    (vals1 vals2 : List Val) (c : ClassSpec) (hc : classes[cls]? = some c) (hp : ClassSpec.plainOnly c = true)
+    (hd : ClassSpec.pathsDistinct c.links = true)
+    (h1 : commitObj classes (fuel + 1) cls hist (.strct vals1) s = .ok s1)
+    (h2 : commitObj classes (fuel + 1) cls hist (.strct vals2) s = .ok s2)
+    (rp : Nat → List Nat → Except Err Val) :
+    (∀ a path names v1 v2, ((a, LinkKind.plain path [] names), v1) ∈ c.links.zip vals1 →
+        ((a, LinkKind.plain path [] names), v2) ∈ c.links.zip vals2 →
+        pullLink rp hist s1 (a, .plain path [] names) = .ok v1 ∧ pullLink rp hist s2 (a, .plain path [] names) = .ok v2) ∧
+    (∀ q, (∀ a path acts names p, (a, LinkKind.plain path acts names) ∈ c.links → resolve hist path = some p →
+        Aoe.Props.C05.Diverge p q) → getAt q s1.root = getAt q s2.root) := by
+  refine ⟨?_, ?_⟩
+  · intro a path names v1 v2 m1 m2
+    exact ⟨pull_after_commit classes fuel cls hist s s1 vals1 c hc hp hd h1 rp a path names v1 m1,
+           pull_after_commit classes fuel cls hist s s2 vals2 c hc hp hd h2 rp a path names v2 m2⟩
+  · intro q hq
+    rw [commit_frame classes fuel cls hist s s1 vals1 c hc hp h1 q hq,
+        commit_frame classes fuel cls hist s s2 vals2 c hc hp h2 q hq]
+
 end Aoe.Props.Links
